@@ -264,7 +264,40 @@ pub fn c07u_ops<const N: usize>() {
     vf::check(s.len() <= s.capacity() && s.capacity() == N && s.is_empty() == (md.n == 0), 206);
 }
 
+/// `Set<(), N>`: zero-sized elements, one element at most; three solver-chosen operations against a one-bit model
+pub fn c07_zst<const N: usize>() {
+    let mut s: Set<(), N> = empty_set();
+    let mut has = false;
+    let mut step = 0;
+    while step < 3 {
+        let (op, b) = (vf::any_u8(), vf::any_bool());
+        vf::assume(op < 9);
+        match op {
+            0 => { vf::reach(1); vf::check(s.insert(()) == !has, 701); has = true; }
+            1 => { vf::check(s.replace(()).is_some() == has, 702); has = true; }
+            2 => { vf::reach(2); vf::check(s.remove(&()) == has, 703); has = false; }
+            3 => { vf::check(s.take(&()).is_some() == has, 704); has = false; }
+            4 => { s.retain(|_| b); has = has && b; }
+            5 => { vf::check(s.contains(&()) == has && s.get(&()).is_some() == has, 705); }
+            6 => { let c = s.clone(); vf::check(c == s && c.len() == s.len() && c.is_subset(&s) && s.is_subset(&c) && c.is_disjoint(&s) == !has, 1502); }
+            7 => { s.clear(); has = false; }
+            _ => { let o: Set<(), N> = if b && N > 0 { Set::from_iter([()]) } else { Set::new() };
+                   vf::check(s.union(&o).count() == (has || (b && N > 0)) as usize, 803);
+                   vf::check(s.intersection(&o).count() == (has && b && N > 0) as usize, 803);
+                   vf::check(s.difference(&o).count() == (has && !(b && N > 0)) as usize, 803);
+                   vf::check(s.symmetric_difference(&o).count() == (has != (b && N > 0)) as usize, 803); }
+        }
+        let n = has as usize;
+        vf::check(s.len() == n && s.is_empty() == !has && s.capacity() == N, 201);
+        let mut t = 0usize;
+        for _ in s.iter() { t += 1; }
+        vf::check(t == n, 202);
+        step += 1;
+    }
+}
+
 harnesses! {
+    c07_zst: [1] [2];
     c07u_ops: [4] [6] [8];
     c07_insert: [1] [2] [3];
     c07_replace: [1] [2] [3];
